@@ -1215,7 +1215,7 @@ SUFFIX_ASSUME = [
     'recorded texts are <= 4096 bytes (<= 1500 in the quick tier; <= 700 for single runs, <= 600 for Segments): deep DivSufSort paths that need larger inputs with production thresholds are reached through the verif-tagged SortCfg hook only (informational DRIFT09 rules)',
 ]
 
-MIX_GENERAL = dict(walks=140, hp=450, design=('GSAP.tla', 'GSAP_q.cfg', 'GSAP_mn.cfg', 300), go=[('parser', 350), ('parser-runs', 49), ('parser-osap', 28), ('parser-cap', 28), ('parser-sa-ntl', 70), ('parser-ntlfuture', 100), ('parser-ntlcollide', 45), ('parser-alias', 42)])
+MIX_GENERAL = dict(walks=140, hp=450, design=('GSAP.tla', 'GSAP_q.cfg', 'GSAP_mn.cfg', 300), go=[('parser', 350), ('parser-runs', 49), ('parser-osap', 28), ('parser-cap', 28), ('parser-sa-ntl', 70), ('parser-ntlfuture', 100), ('parser-ntlcollide', 45), ('parser-alias', 42), ('parser-collide', 42)])
 
 def fam_dbuf(rule):
     return dict(run=run_dbuf, trace_module='DecoderBuf_Trace', rule=rule, assumptions=DBUF_ASSUME)
@@ -1245,7 +1245,7 @@ PROPS = {
     'C01': fam_parser('histories = TLC random walks of ParserBufMC (Write/ReadFrom chunkings and reader errors/Parse/Parse(nil)/Shrink/Reset/probes) instantiated for all seven parsers with the smallest gram sizes + seeded Go histories (11 input classes incl. runs of 0x00, periodic, Fibonacci, Thue-Morse, de Bruijn; tiny geometries in every order relation; pump loop with random flags, skips, shrinks, resets); rule C01.expand: every block expands on top of what a decoder holds to exactly the next n input bytes; non-trivial = distinct script whose trace has a match, a discard, a skip, NoTrailingLiterals with a match, a reset or a reader fault', MIX_GENERAL),
     'C02': fam_parser('same recordings as C01; rules C02.* on every emitted sequence at its absolute position (offset >= 1, <= WindowSize, <= position; length >= minimum, <= MaxMatchLen for OSAP; Aux = 0; LitLen sum <= literals)', MIX_GENERAL),
     'C03': fam_parser('same recordings as C01; rules C03.* (ErrEmptyBuffer iff nothing unparsed, emptied block, 1 <= n <= min(BlockSize, unparsed), Block.Len() = n, NoTrailingLiterals leaves no trailing literals); contiguity is the C01 equation of the next block', MIX_GENERAL),
-    'C14': fam_parser('same recordings as C01 (10-30% nil blocks in a third of the scripts) + the nil generator (30-70% nil blocks with either flag value, blocks left unparsed while more data arrives, small blocks); rules C14.n, C14.empty_iff, and C14.block_after_skip = the round-trip equation for every block parsed after a skipped one', dict(MIX_GENERAL, go=MIX_GENERAL['go'] + [('parser-nil', 210)])),
+    'C14': fam_parser('same recordings as C01 (10-30% nil blocks in a third of the scripts) + the nil generator (30-70% nil blocks with either flag value, blocks left unparsed while more data arrives, small blocks); rules C14.n, C14.empty_iff, and C14.block_after_skip = the round-trip equation for every block parsed after a skipped one', dict(MIX_GENERAL, go=MIX_GENERAL['go'] + [('parser-nil', 210), ('parser-nil-cached', 84)])),
     'C15': fam_parser('same recordings as C01 incl. probes (ReadAt/ByteAt at Off-2..Off+1 and end-2..end+1), Reset with caller slices of capacity len, len+3, len+7, len+8, len+20; rules C15.* (write_n, write_full_iff, readfrom_*, shrink_delta, reset_err, readat_*, byteat, no_panic)', MIX_GENERAL),
     'C19': fam_parser('recordings: run generator (every byte class incl. 0x00, runs of 32..432 bytes crossing block and buffer boundaries, WindowSize 1/2) + the C01 generators; + collision generator (hash parsers with 0..3 hash bits, repeats of 9..40 bytes); rules C19.right_maximal, C19.left_maximal (BHP, BDHP), C19.run_literals', dict(walks=70, hp=300, go=[('parser-runs', 210), ('parser', 175), ('parser-collide', 150)])),
     'C12': dict(run=run_multi, trace_module=None, parts=[
